@@ -5,7 +5,7 @@ export GOFLAGS=-mod=mod GOPROXY=off GOSUMDB=off GOTOOLCHAIN=local
 cd /verif
 ids="$@"; [ -z "$ids" ] && ids=$(ls seeded)
 for sid in $ids; do
-  prop=${sid%b}
+  prop=${sid:0:3}
   [ -f seeded/$sid/patch.diff ] || continue
   if [ -n "$(git -C /repo status --porcelain)" ]; then echo "/repo not clean"; exit 2; fi
   git -C /repo apply /verif/seeded/$sid/patch.diff || { echo "$sid: patch does not apply to /repo HEAD"; continue; }
